@@ -174,9 +174,9 @@ struct pdu_end_of_data_v1 {
 };
 
 struct recv_loop_cleanup_args {
-	struct pdu_ipv4 *ipv4_pdus;
-	struct pdu_ipv6 *ipv6_pdus;
-	struct pdu_router_key *router_key_pdus;
+	struct pdu_ipv4 **ipv4_pdus;
+	struct pdu_ipv6 **ipv6_pdus;
+	struct pdu_router_key **router_key_pdus;
 };
 
 static void recv_loop_cleanup(void *p);
@@ -1014,9 +1014,9 @@ void recv_loop_cleanup(void *p)
 {
 	struct recv_loop_cleanup_args *args = p;
 
-	lrtr_free(args->ipv4_pdus);
-	lrtr_free(args->ipv6_pdus);
-	lrtr_free(args->router_key_pdus);
+	lrtr_free(*args->ipv4_pdus);
+	lrtr_free(*args->ipv6_pdus);
+	lrtr_free(*args->router_key_pdus);
 }
 
 /* WARNING: This Function has cancelable sections*/
@@ -1042,8 +1042,9 @@ static int rtr_sync_receive_and_store_pdus(struct rtr_socket *rtr_socket)
 	struct spki_table *spki_shadow_table = NULL;
 
 	int oldcancelstate;
+	// the stores are (re)allocated while PDUs arrive: the handler must see their current addresses
 	struct recv_loop_cleanup_args cleanup_args = {
-		.ipv4_pdus = ipv4_pdus, .ipv6_pdus = ipv6_pdus, .router_key_pdus = router_key_pdus};
+		.ipv4_pdus = &ipv4_pdus, .ipv6_pdus = &ipv6_pdus, .router_key_pdus = &router_key_pdus};
 
 	// receive LRTR_IPV4/IPV6 PDUs till EOD
 	do {
